@@ -83,6 +83,20 @@ static inline void *wv_new(size_t n)
   return p;
 }
 
+/* free(): CBMC's library model of free, once instrumented by DFCC, costs several hundred thousand SAT variables per call site
+   (measured: 35 unwound call sites in hmac::cmphmac -> 28 M variables).  The extracted text therefore calls this model: the
+   pointer must be NULL or the start of a live heap object (r_ok fails on freed or invalid memory), then the object is
+   deallocated.  What is lost: DFCC's check that the freed object is in the caller's `frees` clause. */
+static inline void wv_free(void *p)
+{
+  if (p != NULL)
+  {
+    __CPROVER_assert(__CPROVER_DYNAMIC_OBJECT(p) && __CPROVER_POINTER_OFFSET(p) == 0 && __CPROVER_r_ok(p, 1), "free argument is the start of a live heap object");
+    __CPROVER_deallocate(p);
+  }
+}
+#define free(p) wv_free(p)
+
 /* R12 / R13 ghost synchronisation primitives */
 typedef struct { bool held; } wv_mutex;
 typedef struct { unsigned notified; } wv_cv;
